@@ -130,6 +130,10 @@ def gen_lmp(rng, natoms, nframes, style):
         text += f"ITEM: ATOMS id type x y z vx vy vz id{u()}\n"
         ids = list(range(1, natoms + 1))
         rng.shuffle(ids)
+        if fr % 3 == 1:
+            ids.sort(reverse=True)          # descending ids
+        elif fr % 3 == 2 and natoms < 10:
+            ids.sort()
         if natoms >= 10 and ids[-1] < 10:   # a multi-digit trailing id on the last line: the sentinel matters
             j = ids.index(natoms)
             ids[j], ids[-1] = ids[-1], ids[j]
@@ -146,27 +150,75 @@ def gen_lmp(rng, natoms, nframes, style):
 
 
 # ----------------------------------------------------------------------------- real code runner
+def _poison(res):
+    """overwrite everything the reader handed out (after it was copied): a reader that keeps an alias to a returned
+    array and reuses it shows up as wrong values in a later frame"""
+    try:
+        items = res if isinstance(res, list) else [a for part in res for a in part]
+        for a in items:
+            if hasattr(a, "fill") and getattr(a, "size", 0):
+                a.fill(float("nan"))
+    except Exception:  # noqa: BLE001
+        pass
+
+
+def safe_conv(conv, res):
+    """canonical frames, or an error string if the reader returned something that is not a list of arrays"""
+    try:
+        out = conv(res)
+    except Exception as e:  # noqa: BLE001
+        return f"err:badresult:{type(e).__name__}"
+    _poison(res)
+    return out
+
+
 class RealFile:
-    def __init__(self, tmpdir):
-        self.path = os.path.join(tmpdir, "traj.txt")
+    def __init__(self, tmpdir, name="traj.txt"):
+        self.path = os.path.join(tmpdir, name)
+
+    def start(self, ep, fn, data, cuts, conv):
+        """one reader object for one trajectory; a cut of -1 is a poll while the file does not exist yet"""
+        if os.path.exists(self.path):
+            os.remove(self.path)
+        return {"reader": ep.ReadAndProcessOnTheFly(self.path, fn), "fh": None, "prev": 0, "out": [],
+                "data": data, "cuts": list(cuts), "conv": conv, "k": 0, "dead": False}
+
+    def step(self, st):
+        """grow to the next cut and poll once; False when the schedule is exhausted or the reader has raised"""
+        if st["dead"] or st["k"] >= len(st["cuts"]):
+            return False
+        c = st["cuts"][st["k"]]
+        st["k"] += 1
+        if c >= 0 and st["fh"] is None:
+            st["fh"] = open(self.path, "wb", buffering=0)
+        if c > st["prev"]:
+            st["fh"].write(st["data"][st["prev"]:c])
+            st["prev"] = c
+        try:
+            res = st["reader"].read_and_process_content()
+        except Exception as e:  # noqa: BLE001
+            st["out"].append(err_kind(e))
+            st["dead"] = True
+            return False
+        fr = safe_conv(st["conv"], res)
+        if isinstance(fr, str):
+            st["out"].append(fr)
+            st["dead"] = True
+            return False
+        st["out"].append((st["reader"].current_position, fr))
+        return True
+
+    def finish(self, st):
+        if st["fh"] is not None:
+            st["fh"].close()
+        return st["out"]
 
     def polls(self, ep, fn, data: bytes, cuts, conv):
         """grow the real file to each cut in turn and poll the real reader object; returns the stage list"""
-        reader = ep.ReadAndProcessOnTheFly(self.path, fn)
-        out = []
-        prev = 0
-        with open(self.path, "wb", buffering=0) as fh:
-            for c in cuts:
-                if c > prev:
-                    fh.write(data[prev:c])
-                    prev = c
-                try:
-                    res = reader.read_and_process_content()
-                except Exception as e:  # noqa: BLE001
-                    out.append(err_kind(e))
-                    break
-                out.append((reader.current_position, conv(res)))
-        return out
+        st = self.start(ep, fn, data, cuts, conv)
+        while self.step(st):
+            pass
+        return self.finish(st)
 
 
 def conv_xyz(res):
@@ -174,6 +226,9 @@ def conv_xyz(res):
 
 
 def conv_lmp(res):
+    if isinstance(res, list) and not res:
+        # FileNotFoundError branch of read_and_process_content: a bare [] instead of ([], []) — "no frames"
+        return []
     traj, box = res
     assert len(traj) == len(box)
     return [([[float(v) for v in row] for row in t], [[float(v) for v in row] for row in b]) for t, b in zip(traj, box)]
@@ -276,9 +331,35 @@ def cut_seqs(T, pairs, rng=None, max_pairs=None):
     return seqs
 
 
+def extra_seqs(T, bounds, rng, n_multi=16):
+    """one long-lived reader over schedules with polls WITHOUT growth (several in a row, also as the very last
+    polls), polls before the file exists (-1), cuts exactly on / one byte around every frame boundary, and
+    multi-cut schedules with repeats; some end without a final poll on the complete file"""
+    near = sorted({c for b in bounds for c in (b - 1, b, b + 1) if 0 <= c <= T} | {0, 1, T - 1, T})
+    seqs = []
+    for c in near:
+        seqs.append([c, c, c, T, T, T])
+        seqs.append([-1, -1, c, T, T])
+        seqs.append([c, c])
+    seqs += [[-1, -1, -1], [-1, 0, 0, T, T], [0, 0, 0], [T], [T, T, T, T, T]]
+    for a in near:
+        for b in near:
+            if a < b:
+                seqs.append([a, b, b, T, T])
+    for _ in range(n_multi):
+        k = rng.randrange(3, 8)
+        cs = sorted(rng.choice(near) if rng.random() < 0.4 else rng.randrange(0, T + 1) for _ in range(k))
+        cs = [c for c in cs for _ in range(rng.choice((1, 1, 2, 3)))]
+        if rng.random() < 0.3:
+            cs = [-1] * rng.randrange(1, 3) + cs
+        seqs.append(cs + rng.choice(([T, T, T], [T, T], [T], [])))
+    return seqs
+
+
 def drive_model(ctx, head, seqs, chunk=300):
     out = []
     lines = []
+    seqs = [[max(c, 0) for c in sq] for sq in seqs]      # a file that does not exist yet reads like an empty one
     for i in range(0, len(seqs), chunk):
         part = seqs[i:i + chunk]
         lines.append(f"{head} {len(part)} " + " ".join(lst(s) for s in part))
@@ -311,7 +392,9 @@ def check_text(ctx, ep, rf, kind, text, frames, bounds, seqs, label):
     first_dis = None
     nfail = 0
     for k, cuts in enumerate(seqs):
-        ctx.count(1, branch=f"{kind}:{'single' if len(cuts) == 4 else 'pair'}")
+        shape = ("late-file" if -1 in cuts else "single" if len(cuts) == 4 and cuts[1:] == [T, T, T] else
+                 "pair" if len(cuts) == 5 and cuts[2:] == [T, T, T] and cuts[0] < cuts[1] else "stutter/multi")
+        ctx.count(1, branch=f"{kind}:{shape}")
         if any(c not in bounds for c in cuts[:-3]):
             ctx.distinct((kind, label, tuple(cuts)))
         bad = pred(code[k], cuts, frames, bounds)
@@ -360,20 +443,67 @@ def check_text(ctx, ep, rf, kind, text, frames, bounds, seqs, label):
     return nfail
 
 
+def check_interleaved(ctx, ep, tmpdir, pool):
+    """two reader objects alive at once on different files, polled alternately (and a third trajectory written
+    under the name of the first one afterwards, read by a NEW reader): every reader must behave exactly as when it
+    is alone — no state shared through the class, the module or the processing functions"""
+    rng = ctx.rng
+    rfa, rfb, rf0 = RealFile(tmpdir, "a.txt"), RealFile(tmpdir, "b.txt"), RealFile(tmpdir, "alone.txt")
+    n = 12 if ctx.quick else 120
+    for _ in range(n):
+        picks = [rng.choice(pool) for _ in range(3)]
+        specs = []
+        for kind, text, frames, bounds in picks:
+            data = text.encode()
+            T = len(data)
+            sq = rng.choice(extra_seqs(T, bounds, rng, n_multi=4)[-4:]) + [T, T]
+            fn = ep.xyz_reader if kind == "xyz" else ep.lammpstrj_reader
+            conv = conv_xyz if kind == "xyz" else conv_lmp
+            specs.append((kind, fn, data, sq, conv, frames, bounds, text))
+        alone = [rf0.polls(ep, sp[1], sp[2], sp[3], sp[4]) for sp in specs]
+        sta = rfa.start(ep, specs[0][1], specs[0][2], specs[0][3], specs[0][4])
+        stb = rfb.start(ep, specs[1][1], specs[1][2], specs[1][3], specs[1][4])
+        more = True
+        while more:
+            k = rng.randrange(1, 3)
+            ma = any([rfa.step(sta) for _ in range(k)])
+            mb = any([rfb.step(stb) for _ in range(3 - k)])
+            more = ma or mb
+        got = [rfa.finish(sta), rfb.finish(stb)]
+        got.append(rfa.polls(ep, specs[2][1], specs[2][2], specs[2][3], specs[2][4]))   # same name, new reader
+        for j, (sp, g, a) in enumerate(zip(specs, got, alone)):
+            kind, frames, bounds, text = sp[0], sp[5], sp[6], sp[7]
+            ctx.count(1, branch="readers:interleaved" if j < 2 else "readers:same-name-new-reader")
+            ctx.distinct(("interleaved", kind, text, tuple(sp[3])))
+            bad = (pred_xyz if kind == "xyz" else pred_lmp)(g, sp[3], frames, bounds)
+            if bad is None and g != a:
+                bad = ("C13:reader-state-leaks", "a reader polled next to another reader (or on a file name used "
+                       "before) returns something else than the same reader alone", 0)
+            if bad is not None:
+                seen = ctx.extra.setdefault("_c13_reported", [])
+                if bad[0] not in seen:
+                    seen.append(bad[0])
+                    ctx.fail(bad[0], f"{kind} reader, " + ("interleaved with a second reader" if j < 2 else
+                             "file name reused, new reader") + f": {bad[1]}",
+                             {"kind": kind, "text": text, "cuts": sp[3], "stage": bad[2], "frames": frames,
+                              "bounds": bounds, "note": "found in the interleaved/same-name scenario"})
+
+
 # ----------------------------------------------------------------------------- TRR
 TRR_KEYS = ["ir_size", "e_size", "box_size", "vir_size", "pres_size", "top_size", "sym_size", "x_size",
             "v_size", "f_size"]
 
 
-def trr_frame(endian, double, natoms, step, rng, blocks="xv"):
+def trr_frame(endian, double, natoms, step, rng, blocks="xv", zero=False):
     """one TRR frame (header + box + the blocks named in `blocks` ⊆ "xvf") in the layout read_trr_header expects"""
     fs = 8 if double else 4
     fc = "d" if double else "f"
     version = b"GMX_trn_file"
-    vals = {"box": [float(rng.randrange(-40, 40)) / 4 for _ in range(9)]}
+    vals = {"box": [0.0 if zero else float(rng.randrange(-40, 40)) / 4 for _ in range(9)]}
     for key, div in (("x", 8), ("v", 16), ("f", 32)):
         if key in blocks:
-            vals[key] = [float(rng.randrange(-400, 400)) / div for _ in range(3 * natoms)]
+            vals[key] = [rng.choice((0.0, -0.0)) if zero else float(rng.randrange(-400, 400)) / div
+                         for _ in range(3 * natoms)]
     sizes = {"ir_size": 0, "e_size": 0, "box_size": 9 * fs, "vir_size": 0, "pres_size": 0, "top_size": 0,
              "sym_size": 0, "x_size": 0, "v_size": 0, "f_size": 0}
     for key in "xvf":
@@ -434,10 +564,7 @@ class _OsShim:
         return getattr(os, name)
 
 
-def trr_run(tmpdir, data: bytes, schedule, trace=None):
-    """drive the real get_gromacs_frames: every check_poll()/sleep() call makes the next chunk visible"""
-    from infretis.classes.engines import gromacs as gm
-    path = os.path.join(tmpdir, "traj.trr")
+def _trr_setup(gm, path, data, schedule, trace=None):
     cuts = list(schedule)
     state = {"i": 0, "prev": 0, "ticks": 0, "running": True}
     fh = open(path, "wb", buffering=0)
@@ -480,17 +607,34 @@ def trr_run(tmpdir, data: bytes, schedule, trace=None):
         return None
 
     runner.check_poll = check_poll
+    return {"runner": runner, "state": state, "grow": grow, "fh": fh, "out": []}
+
+
+def _trr_frame_out(state, fr):
+    try:
+        return (state["prev"], {k: [float(z) for z in fr[k].reshape(-1)]
+                                for k in ("box", "vir", "pres", "x", "v", "f") if k in fr})
+    except Exception as e:  # noqa: BLE001
+        return f"err:badresult:{type(e).__name__}"
+
+
+def trr_run(tmpdir, data: bytes, schedule, trace=None):
+    """drive the real get_gromacs_frames: every check_poll()/sleep() call makes the next chunk visible"""
+    from infretis.classes.engines import gromacs as gm
+    su = _trr_setup(gm, os.path.join(tmpdir, "traj.trr"), data, schedule, trace)
+    runner, state, out = su["runner"], su["state"], su["out"]
     old_sleep = gm.sleep
     old_os = gm.os
-    gm.sleep = lambda _t: grow()
+    gm.sleep = lambda _t: su["grow"]()
     if trace is not None:
         gm.os = _OsShim(trace, state)
-    out = []
     try:
         try:
             for fr in runner.get_gromacs_frames():
-                out.append((state["prev"], {k: [float(z) for z in fr[k].reshape(-1)]
-                                            for k in ("box", "vir", "pres", "x", "v", "f") if k in fr}))
+                out.append(_trr_frame_out(state, fr))
+                if len(out) > 1000:
+                    out.append("err:runaway:more than 1000 frames yielded")
+                    break
         except _Spin:
             out.append("spin")
         except Exception as e:  # noqa: BLE001
@@ -499,8 +643,44 @@ def trr_run(tmpdir, data: bytes, schedule, trace=None):
         gm.sleep = old_sleep
         gm.os = old_os
         runner.fileh.close()
-        fh.close()
+        su["fh"].close()
     return out
+
+
+def trr_run_pair(tmpdir, jobs):
+    """two GromacsRunner objects alive at once on two files, their generators advanced alternately"""
+    from infretis.classes.engines import gromacs as gm
+    sus = [_trr_setup(gm, os.path.join(tmpdir, f"pair{j}.trr"), data, sch) for j, (data, sch) in enumerate(jobs)]
+    cur = {"j": 0}
+    old_sleep = gm.sleep
+    gm.sleep = lambda _t: sus[cur["j"]]["grow"]()
+    gens = [su["runner"].get_gromacs_frames() for su in sus]
+    alive = [True] * len(sus)
+    try:
+        guard = 0
+        while any(alive) and guard < 5000:
+            guard += 1
+            for j, su in enumerate(sus):
+                if not alive[j]:
+                    continue
+                cur["j"] = j
+                try:
+                    fr = next(gens[j])
+                    su["out"].append(_trr_frame_out(su["state"], fr))
+                except StopIteration:
+                    alive[j] = False
+                except _Spin:
+                    su["out"].append("spin")
+                    alive[j] = False
+                except Exception as e:  # noqa: BLE001
+                    su["out"].append(err_kind(e))
+                    alive[j] = False
+    finally:
+        gm.sleep = old_sleep
+        for su in sus:
+            su["runner"].fileh.close()
+            su["fh"].close()
+    return [su["out"] for su in sus]
 
 
 def trr_ticks(trace):
@@ -531,6 +711,9 @@ def trr_scenarios(ctx):
     (nstxout != nstvout != nstfout: frames with x only, x+v, x+v+f, a small first frame, a small last frame)"""
     rng = ctx.rng
     sc = [(1, ["xv", "xv"], True), (3, ["xv"] * 3, True), (40, ["xv"] * 3, False),
+          (5, ["xv"], True), (50, ["xvf"], False),          # one frame only: small (< TRR_HEAD_SIZE) and large
+          (14, ["x", "x"], False),                          # double precision: the file is exactly 1000 bytes
+          (12, ["x", "xf", "f", "x"], False),               # forces only in some frames, a frame without positions
           (12, ["x", "xv", "xvf"], True), (12, ["xvf", "x", "x"], False), (12, ["xvf", "xv", "x", "xvf"], False),
           (16, ["", "xvf", "x"], False), (30, ["x", "xvf"], False), (30, ["xvf", "x"], False)]
     n_rand = 1 if ctx.quick else 12
@@ -634,13 +817,24 @@ def check_trr(ctx, tmpdir):
     for endian, double in itertools.product("<>", (False, True)):
         for natoms, blocks, every in scenarios:
             nframes = len(blocks)
-            parts = [trr_frame(endian, double, natoms, s, rng, blocks[s]) for s in range(nframes)]
+            parts = [trr_frame(endian, double, natoms, s, rng, blocks[s], zero=(s == 1 and natoms % 2 == 0))
+                     for s in range(nframes)]
             data = b"".join(h + b for h, b, _ in parts)
             frames = [p[2] for p in parts]
             ends = list(itertools.accumulate(len(h) + len(b) for h, b, _ in parts))
             T = len(data)
             step = 1 if (every or T <= 700) else 7
             scheds = [[c, T] for c in range(0, T + 1, step)]
+            # exact boundaries whatever the step: frame ends, header/data boundaries, TRR_HEAD_SIZE, the first
+            # header guard of every frame (frame start + 1000 / + learned header size), each one byte around
+            starts = [0] + ends[:-1]
+            marks = {0, 1, T - 1, T, 999, 1000, 1001}
+            for (h, _b, _), e0, e1 in zip(parts, starts, ends):
+                for m in (e0, e0 + len(h), e1, e0 + 1000, e0 + 2 * len(h)):
+                    marks |= {m - 1, m, m + 1}
+            marks = sorted(m for m in marks if 0 <= m <= T)
+            scheds += [[m, T] for m in marks if m % step]
+            scheds += [[m, m, m, T] for m in marks] + [[a, b, T] for a in marks for b in marks if a < b][:400]
             # byte-by-byte growth, growth in random chunks, growth frame by frame / header by header
             scheds.append(list(range(1, T + 1)))
             scheds.append(list(ends))
@@ -690,6 +884,29 @@ def check_trr(ctx, tmpdir):
                         ndis += 1
                         ctx.disagree(dict(label, fn="get_gromacs_frames guards vs trrRun", schedule=sch[:20]),
                                      ticks[:40], mt[:40])
+    # two runner objects alive at once (different byte order / precision / layouts), advanced alternately
+    for _ in range(8 if ctx.quick else 80):
+        jobs, exp = [], []
+        for _j in range(2):
+            endian, double = rng.choice("<>"), rng.random() < 0.5
+            natoms, blocks, _e = rng.choice(scenarios)
+            parts = [trr_frame(endian, double, natoms, s, rng, blocks[s]) for s in range(len(blocks))]
+            data = b"".join(h + b for h, b, _ in parts)
+            T = len(data)
+            sch = sorted(rng.sample(range(1, T), min(T - 1, rng.randrange(1, 8)))) + [T]
+            jobs.append((data, sch))
+            exp.append(([p[2] for p in parts], list(itertools.accumulate(len(h) + len(b) for h, b, _ in parts)),
+                        {"kind": "trr", "endian": endian, "double": double, "natoms": natoms, "blocks": blocks,
+                         "nframes": len(blocks), "data": data.hex(), "schedule": sch}))
+        outs = trr_run_pair(tmpdir, jobs)
+        for out, (frames, ends, label) in zip(outs, exp):
+            ctx.count(1, branch="trr:two-runners-interleaved")
+            bad = trr_predicate(out, frames, ends)
+            if bad:
+                seen = ctx.extra.setdefault("_c13_reported", [])
+                if bad[0] not in seen:
+                    seen.append(bad[0])
+                    ctx.fail(bad[0], "two runners alive at once: " + bad[1], label)
     return ncase
 
 
@@ -733,7 +950,15 @@ def run(ctx):
                 "compact, CP2K-like padded and randomly padded layouts; unsorted ids, 2- and 3-column box lines): "
                 "every single cut point 0..T (polls at c,T,T,T) for all of them and every pair of cut points "
                 "(c1<c2, polls at c1,c2,T,T,T) for the small ones, against the real reader object on a real growing "
-                "file. Non-trivial = at least one cut strictly inside a frame; distinct by (trajectory, cut sequence).")
+                "file; plus, per trajectory, one long-lived reader over schedules with several polls without growth "
+                "(in the middle and as the last polls), polls before the file exists, cuts on / one byte around every "
+                "frame boundary, multi-cut schedules with repeats, schedules that stop before the file is complete; "
+                "two readers alive at once polled alternately, a file name reused by a new reader; every array handed "
+                "out is overwritten with NaN after it was copied. TRR: uniform and heterogeneous frames (any subset "
+                "of x/v/f, box-only, single-frame, zero-valued frames, a file of exactly 1000 bytes), all [c,T] cuts "
+                "(every byte on the small files) plus every boundary ±1 (frame ends, header/data, TRR_HEAD_SIZE, the "
+                "header guards), stutter and pair schedules, two runners alive at once. "
+                "Non-trivial = at least one cut strictly inside a frame; distinct by (trajectory, cut sequence).")
     try:
         rf = RealFile(tmpdir)
         replay_corpus(ctx, ep, rf)
@@ -766,15 +991,18 @@ def run(ctx):
                     for style in range(3):
                         lmp_plan.append((na, nf, style, na * nf <= 2, 20000))
             lmp_plan += [(12, 2, 0, False, None), (11, 3, 1, False, None)]
+        pool = []
         for j, (na, nf, style, pairs, mp) in enumerate(xyz_plan):
             text, frames, bounds = gen_xyz(rng, na, nf, style)
-            seqs = cut_seqs(blen(text), pairs, rng, mp)
+            pool.append(("xyz", text, frames, bounds))
+            seqs = cut_seqs(blen(text), pairs, rng, mp) + extra_seqs(blen(text), bounds, rng)
             check_text(ctx, ep, rf, "xyz", text, frames, bounds, seqs, f"xyz{j}:{na}x{nf}:s{style}")
             if j < 2:
                 ctx.sample({"kind": "xyz", "text": text, "n_cut_sequences": len(seqs)})
         for j, (na, nf, style, pairs, mp) in enumerate(lmp_plan):
             text, frames, bounds = gen_lmp(rng, na, nf, style)
-            seqs = cut_seqs(blen(text), pairs, rng, mp)
+            pool.append(("lmp", text, frames, bounds))
+            seqs = cut_seqs(blen(text), pairs, rng, mp) + extra_seqs(blen(text), bounds, rng)
             check_text(ctx, ep, rf, "lmp", text, frames, bounds, seqs, f"lmp{j}:{na}x{nf}:s{style}")
             if j < 1:
                 ctx.sample({"kind": "lammpstrj", "text": text, "n_cut_sequences": len(seqs)})
@@ -803,6 +1031,7 @@ def run(ctx):
                 if code != m:
                     ctx.disagree({"fn": "lammpstrj_reader malformed vs model", "text": t}, code, m)
 
+        check_interleaved(ctx, ep, tmpdir, pool)
         check_trr_header(ctx)
         ntrr = check_trr(ctx, tmpdir)
         ctx.extra["trr_schedules"] = ntrr
@@ -830,6 +1059,18 @@ def run(ctx):
         "reopen_file/read_remaining_trr only as far as the schedules reach them",
         "xyz theorems for the as-is reader hold only for cuts at line ends (xyz_safety_partial); the unrestricted "
         "theorem is proved for the `repaired` variant of the model",
+    ]
+    new_assumptions += [
+        "object-state scenarios (one reader over long schedules, two readers/runners alive at once, file name reused "
+        "by a new reader, returned arrays poisoned after copying) are tie-only: the Lean model is a function of "
+        "(content, position), it has no object identity to leak",
+        "one reader object per trajectory, as the engines use it; re-using the SAME reader after the file was "
+        "truncated/replaced is not promised by the property and not generated",
+        "for a file that does not exist yet read_and_process_content returns a bare [] (also for the LAMMPS reader, "
+        "whose normal result is a pair): taken as 'no frames'; the LAMMPS engine waits for the file before polling",
+        "a reader that never returns from one call (infinite loop inside a poll) is only stopped by the framework's "
+        "wall-clock limit (exit 2); all loops driven by the harness itself are bounded (TRR: 64 idle polls, "
+        "1000 frames, 5000 alternations)",
     ]
     for a in new_assumptions:      # run() may be called again with further seeds
         if a not in ctx.assumptions:
